@@ -79,6 +79,23 @@ def run_unit(A, unit, rep, tier):
         for n in ast.walk(ib.func.node):
             if isinstance(n, ast.Compare) and isinstance(n.comparators[0], ast.Constant):
                 lit = n.comparators[0].value
+        # a synced node of the same kind (and tuples for lists) must be accepted too, so that assigning
+        # a synced collection stores a converted copy instead of the object itself
+        for t in (("list", "tuple", "SyncedList subclass") if A.is_list(cls) else ("dict", "SyncedDict subclass")):
+            tag, pure, poss = tag_of(m, r, t)
+            if pure and tag == lit:
+                rep.ok("C12.b")
+            elif t not in JSON_TYPES:
+                rep.fail("C12.b", norm_key("C12.b", ib.func.qualname, t), f"{ib.func.qualname}: a value of type '{t}' is not recognised as convertible to a {'list' if A.is_list(cls) else 'dict'}-like synced node (classified {poss}): it would be stored as-is, aliasing the original", [ib.func.loc], cls.name)
+        # the merge (_update) must accept exactly what the conversion accepts
+        owner_u, up = m.lookup(cls, "_update")
+        usrc = ast.unparse(up.func.node)
+        uses_same = r.name in usrc and any(isinstance(n, ast.Compare) and isinstance(n.comparators[0], ast.Constant) and n.comparators[0].value == lit and r.name in ast.unparse(n.left) for n in ast.walk(up.func.node))
+        others = [n for n in ast.walk(up.func.node) if isinstance(n, ast.If) and "isinstance" in ast.unparse(n.test) and ("Sequence" in ast.unparse(n.test) or "Mapping" in ast.unparse(n.test))]
+        if uses_same and not others:
+            rep.ok("C12.e", f"C12.e {up.func.qualname}: the merge accepts exactly the values {ib.func.qualname} converts")
+        else:
+            rep.fail("C12.e", norm_key("C12.e", up.func.qualname), f"{up.func.qualname} decides with its own type test (not {r.name} == {lit!r}) whether data can be merged: values the conversion treats as scalars (e.g. str) are merged element-wise, or convertible ones are rejected", [up.func.loc], cls.name)
         for t in JSON_TYPES:
             tag, pure, poss = tag_of(m, r, t)
             want = (t == "list") if A.is_list(cls) else (t == "dict")
